@@ -343,7 +343,10 @@ def main(argv):
                        "how_to_replay": "./check %s --replay <this file>" % pid,
                        "minimised_to_single_case": bool(mini and "--case" in mini.cmd),
                        "stderr": (src.crash or "")[-3000:]}
-            path = write_replay(pid, seed, tier, fr.family, payload, src.transcript)
+            tag = fr.family
+            if fr.spec.get("args"):
+                tag += "-" + hashlib.md5(json.dumps(fr.spec["args"], sort_keys=True).encode()).hexdigest()[:6]
+            path = write_replay(pid, seed, tier, tag, payload, src.transcript)
             violations.append((path, "" if is_oracle else " no-failing-input-found"))
         if proof_broken and not any(v[1] == "" for v in violations):
             # a proof obligation broke and the search found no failing input
